@@ -487,3 +487,22 @@ def iter_eval(expr, pt):
         else:
             out.append(t.evaluate(pt))
     return out[0]
+
+
+class uncached:
+    """Run with a functools.lru_cache-wrapped module attribute replaced by the undecorated function: fresh builds are forced
+    WITHOUT clearing (or filling) the process-wide cache, so that whatever earlier cases left in it keeps acting on later ones."""
+
+    def __init__(self, module, name):
+        self.module, self.name = module, name
+
+    def __enter__(self):
+        self.orig = getattr(self.module, self.name)
+        if hasattr(self.orig, "__wrapped__"):
+            setattr(self.module, self.name, self.orig.__wrapped__)
+        else:
+            self.orig.cache_clear() if hasattr(self.orig, "cache_clear") else None
+        return self
+
+    def __exit__(self, *a):
+        setattr(self.module, self.name, self.orig)
